@@ -17,7 +17,7 @@ def qmsgs (c : Chan) : List Nat := c.queue.filterMap (fun e => msgNo e.pl)
 
 /-- the payload an operation submits (when it submits one) -/
 def payloadOf (o : Nat) : OpKind → Payload
-  | .send m | .trySend m => .msg m none
+  | .send m | .trySend m | .tryForce m => .msg m none
   | .call m | .callw m | .tryCall m => .msg m (some o)
   | .ping => .ping o
   | _ => .stop
